@@ -1,6 +1,6 @@
 (* C09 -- corollaries for the Huffman scan unit and a concrete non-vacuity example. *)
 From Coq Require Import List ZArith Lia Arith Bool.
-From LJT Require Import model.Suspend model.SuspendMarker model.SuspendHuff proofs.SuspendProofs
+From LJT Require Import model.SuspendCore model.SuspendMarker model.SuspendHuff proofs.SuspendProofs
   proofs.SuspendHuffProofs proofs.SuspendTheorems.
 Import ListNotations.
 
